@@ -42,7 +42,8 @@ struct CheckDef {
 
 static std::vector<CheckDef> g_checks = {
         { "C01", "exploration", { { "hashmgr", 5 }, { "l2mgr", 1 }, { "hashendure", 0, 28 } }, 30000, 3000000, 50, 900, false, false,
-          "cases: seeded plans (algorithm x family x client count x segmentation x submit/flush/restart interleaving); "
+          "cases: seeded plans (algorithm x family x client count x segmentation x submit/flush/restart interleaving; 1 in 12 with a giant segment "
+          "kept in flight); thorough adds 28 endurance runs (one long-lived manager, 20-36 GiB through the flush path); "
           "distinct_nontrivial: distinct manager states reached, state = hash(algorithm, family, |in flight|, sorted remaining-block buckets "
           "of in-flight jobs, #idle, #complete clients, last op kind) at which at least one job was in flight",
           { "reference hashes trusted after start-up vector self-check", "sampling, not proof" } },
@@ -76,7 +77,7 @@ static std::vector<CheckDef> g_checks = {
           "carried partial length, fragment residue, fragment class, nt, in-place) cells",
           { "the one-shot call of the same family is the oracle, not an object under test (that would be C02)" } },
         { "C08", "exploration", { { "hashmgr", 3 }, { "stream", 4 }, { "oneshot", 4 }, { "l2mgr", 2 }, { "streamhuge", -12 } }, 40000, 4000000, 50, 900, false, false,
-          "cases: mixed batch of all workloads (hash managers, streaming objects, one-shot AES client) with every buffer placed end-flush, "
+          "cases: mixed batch of all workloads (hash managers, streaming objects, one-shot AES client, 12 huge stream cases) with every buffer placed end-flush, "
           "start-flush or mid-slot in a guard-paged arena (seeded), canaries around every range, checksums of every input/constant object; "
           "only the memory-map monitor decides; distinct_nontrivial: distinct workload states reached (union of the HashMgrSim, StreamSim "
           "and one-shot cell measures: (entry/kind, family, length or carry class, placement-independent))",
@@ -118,9 +119,12 @@ static std::vector<CheckDef> g_checks = {
           "cases: long-stream workload on every (algorithm, family) pair in turn (run i uses pair i mod 28): up to 4 long clients stream the same "
           "periodic 2 MiB pattern through a 4 GiB aliased window under seeded segmentations (segments up to 2^32-1 bytes, bursts of small "
           "unaligned segments around each threshold) interleaved with short clients; quick crosses 2^29 and 2^32 on all 28 pairs (one long "
-          "client each), thorough crosses 2^32+2^29 on all with two long clients; distinct_nontrivial: distinct (pair, stream position >> "
-          "26, segment length >> 20) cells",
+          "client each), thorough crosses 2^32+2^29 on all with two long clients; plus counter-jump runs (5 per pair in quick, 20 in thorough): "
+          "a whole number of blocks is added to ctx->total_length and to the model's length while the context is idle, then 2^k (k in 33..60) "
+          "is approached and crossed with real segments; distinct_nontrivial: distinct (pair, stream position >> 26, segment length >> 20) cells",
           { "one streaming reference digest per (algorithm, total length) shared by all clients and families of a process",
+            "counter jump: ctx->total_length is taken to be the library's only record of the running total; a run whose reported total does not "
+            "follow the jump is discarded, not judged",
             "the periodic stream is a declared input like any other; periodicity is irrelevant to length accounting" } },
         { "C12", "exploration", { { "dispatch", 1 } }, 200000, 20000000, 50, 900, false, false,
           "cases: seeded architecturally consistent CPUID leaf 1/7 + XCR0 assignments biased to fault profiles (one feature masked, OS state "
